@@ -65,10 +65,11 @@ Lemma ok_rd_lp_string (w : bytes) : ok_shrinks (rd_lp_string w) w.
 Proof.
   unfold rd_lp_string. apply ok_bind; [apply ok_rd32|].
   intros n w1 E L. cbn [fst snd]. destruct (n <=? len w1); [|apply ok_err].
+  destruct (upto_nul (takeN n w1)); [|apply ok_err].
   apply ok_ret. pose proof (length_dropN n w1). lia.
 Qed.
 
-Lemma ok_dec_lp_items (mk : bytes -> item) (fuel : nat) (n : N) (w : bytes) :
+Lemma ok_dec_lp_items (mk : bytes -> option item) (fuel : nat) (n : N) (w : bytes) :
   (length w < fuel)%nat -> ok_shrinks (dec_lp_items mk fuel n w) w.
 Proof.
   revert n w; induction fuel as [|f IH]; intros n w Hf; [lia|].
@@ -76,6 +77,7 @@ Proof.
   apply ok_bind; [apply ok_rd32|].
   intros sz w1 E L. cbn [fst snd]. apply rd32_length in E.
   destruct (sz <=? len w1); [|apply ok_err].
+  destruct (mk (takeN sz w1)); [|apply ok_err].
   pose proof (length_dropN sz w1) as Ld.
   apply ok_bind.
   - apply ok_weaken with (dropN sz w1); [apply IH; lia|lia].
@@ -143,6 +145,7 @@ Section Level.
       try apply ok_crash.
     - apply ok_dec_msg_items; lia.
     - apply ok_bind; [apply ok_rd32|]. intros n w1 E L. cbn [fst snd]. apply rd32_length in E.
+      destruct (_ <? n); [apply ok_err|].
       apply ok_weaken with w1; [apply ok_dec_lp_items; lia|lia].
     - apply ok_bind; [apply ok_rd32|]. intros n w1 E L. cbn [fst snd]. apply rd32_length in E.
       apply ok_weaken with w1; [apply ok_dec_lp_items; lia|lia].
@@ -150,7 +153,8 @@ Section Level.
 
   Lemma ok_dec_field (ft : ftype) (w : bytes) : (length w < f)%nat -> ok_shrinks (dec_field inner ft w) w.
   Proof.
-    intro Hf. unfold dec_field. destruct (num_items_in_buffer ft w =? 1).
+    intro Hf. unfold dec_field. destruct (negb (ft_flattenable ft)); [apply ok_err|].
+    destruct (num_items_in_buffer ft w =? 1).
     - apply ok_bind; [apply ok_dec_single; exact Hf|]. intros i w' E L. cbn [fst snd]. apply ok_ret. exact L.
     - apply ok_bind; [apply ok_dec_array; exact Hf|]. intros l w' E L. cbn [fst snd]. apply ok_ret. exact L.
   Qed.
